@@ -749,7 +749,8 @@ def execute(plan):
         res.violate(f"C04|O1|{api}|{inner}|{out[1]}",
                     f"{out[1]} escaped from {api} call (fired sites {sites}): {out[2]}")
     elif out[0] == "hang":
-        res.violate(f"C04|O3|{api}|{out[1][1] if out[1] else '?'}|hang",
+        # (where the budget ran out is not part of the fingerprint: a loop spanning several functions ends in any of them)
+        res.violate(f"C04|O3|{api}|{inner}|hang",
                     f"call exceeded {budget} virtual steps at {out[1]}")
     elif out[0] == "ParseError" and body:
         res.violate(f"C04|O2|{api}|{inner}|body_entered", "parameters failed to parse but the function body was entered")
